@@ -6,7 +6,7 @@ CLAIMED = open('/verif/tools/claimed.txt').read().split()
 
 P = {
  "C01": ("exploration", "fsx", "4.1", "model-based stateful PBT (proptest histories vs. byte-array model)",
-   "Generated histories (geometry x tree x interleaved open/seek/read/write/flush/close over raw, RAII and embedded-io surfaces, 1-2 volumes) compared call by call with a Vec<u8> model; full re-reads of all open files (CheckAll) and a fresh mount at the end. Sampling of an infinite space: no absence claim.",
+   "Generated histories (geometry x tree x interleaved open/seek/read/write/flush/close over raw, RAII and embedded-io surfaces, 1-2 volumes) compared call by call with a Vec<u8> model; full re-reads of all open files (CheckAll) and a fresh mount at the end; second stage: one 2-4 GiB third-party file on a sparse FAT32 volume with 64-bit seeks, reads around marker blocks and writes at the 4 GiB - 1 size limit. Sampling of an infinite space: no absence claim.",
    "Trusts the harness's model of documented semantics and the simulated block device (atomic single-block I/O, no faults)."),
  "C02": ("exploration", "fsx", "4.2", "model-based PBT with independent FAT reader and fresh-mount differential",
    "Generated histories; at every flush/close/delete/mkdir and at the end the raw image is read by an independent FAT implementation and by a fresh VolumeManager, and every untouched directory slot/file is diffed against the initial image.",
@@ -36,10 +36,10 @@ P = {
    "Every prefix of the block-write sequence of every generated mutating history must mount and pass the crash-mode checker (no dangling/cross-linked/cyclic chains, no stale directory contents exposed, no directory entry without cluster).",
    "Block writes atomic and ordered; free clusters carry recognisable stale directory entries."),
  "C11": ("fault_enumeration", "faults", "4.11", "PBT histories x fault injection at every device-call index",
-   "Each generated history is re-run with a transient fault (scribbled read buffer) at every device-call index, plus dead-device and multi-fault variants; the faulted call must return Err, handles stay usable, read-only calls succeed on retry, no duplicate names.",
+   "Each generated history is re-run with a transient fault (scribbled read buffer) at every device-call index, plus dead-device and multi-fault variants; the faulted call must return Err, handles stay usable, read-only calls succeed on retry, no duplicate names; every device call of Volume::close() fails in turn and the volume must be openable again.",
    "Fault model: a failing call returns Err to the crate and has no effect on the medium."),
  "C12": ("exploration", "sdsim", "5.1", "model-based PBT against a simulated SD card written from the SD specification",
-   "Card kind x CRC x capacity x timings x read/write sequences; card memory == model everywhere; multi-block == singles; capacity == CSD formula for the register's structure version.",
+   "Card kind x CRC x capacity x timings x read/write sequences; card memory == model everywhere; multi-block == singles; capacity == CSD formula for the register's structure version; busy after the stop token as long as after any block and starting one byte late; transfers behind the last block must be refused without touching the card.",
    "Trusts the simulated card (independent command table, CRCs and CSD encoders)."),
  "C13": ("fault_enumeration", "sdsim", "5.2", "PBT sequences x enumerated bit flips / dead / busy / garbage positions",
    "Every single-bit flip of a data block + CRC (enumerated), every bit of the CSD block with CRC off (enumerated), bursts, wrong tokens, rejected writes, wrong CMD8 echo, SPI errors and dead/busy/garbage cards from generated byte positions; Ok only with correct data; Err where the property requires it; recovery after power-cycle; SPI byte budget per driver call enforced by the card.",
@@ -51,7 +51,7 @@ P = {
    "Valid: files placed by the independent formatter are read back through the crate for all BPB parameter combinations; invalid: field boundary values, mutations and random sectors must yield Ok or Err without panic (overflow checks on).",
    "Trusts the independent formatter (self-tested)."),
  "C16": ("exploration", "fsx", "4.13", "stateful PBT with FAT-copy comparison and FSInfo delta oracle, differential correct-vs-stale record",
-   "FAT copies byte-compared after every call; FSInfo free count delta == FAT scan delta after every dirty flush / volume close; same history with correct and stale record must give identical API results.",
+   "FAT copies byte-compared after every call; FSInfo free count changed by exactly the FAT-scan delta (clamped to what is storable) and next-free hint unknown or inside the volume after every flush / close / volume close, whatever the record was at mount; same history with correct and stale record must give identical API results.",
    "Trusts the independent FAT scan."),
  "C17": ("exploration", "lfn", "6.1", "PBT + boundary enumeration against String::from_utf16_lossy and an independent LFN association rule",
    "Fragment sequences over code-unit classes and buffer sizes 0..=780 against the lossy decoding; directories with well-formed/broken runs against the specification's association rule.",
